@@ -84,6 +84,10 @@ func c31Mirrored(a, b *nsNode) bool {
 	return false
 }
 
+// c31KeyIdle: both nodes start a handshake with nothing to send and nothing is ever sent afterwards;
+// each keeps the tunnel it initiated (see known_findings.json).
+const c31KeyIdle = "idle-simultaneous-initiations-keep-own-tunnels"
+
 func TestC31_Converge(t *testing.T) {
 	nsSetT(t)
 	vk.Check(t, 600, func(rt *rapid.T) {
@@ -105,8 +109,15 @@ func TestC31_Converge(t *testing.T) {
 				}
 			}
 
-			mode := rapid.SampledFrom([]string{"simultaneous", "simultaneous", "staggered", "rehandshake-over-live"}).Draw(rt, "mode")
+			mode := rapid.SampledFrom([]string{"simultaneous", "simultaneous", "staggered", "rehandshake-over-live", "simultaneous-idle"}).Draw(rt, "mode")
 			switch mode {
+			case "simultaneous-idle":
+				// both ends bring the tunnel up with nothing to send (Control.CreateTunnel) and nothing is sent
+				// afterwards: the network is quiet from the moment the handshakes are done
+				a.ctrl.CreateTunnel(addrB)
+				b.ctrl.CreateTunnel(addrA)
+				s.settle()
+				h.note("both nodes create the tunnel at the same instant, no payload")
 			case "simultaneous":
 				w.sendTagged(0, 1, addrB, 40)
 				w.sendTagged(1, 0, addrA, 40)
@@ -220,9 +231,10 @@ func TestC31_Converge(t *testing.T) {
 			}
 			bothProduced := initA && initB
 
+			idle := mode == "simultaneous-idle"
 			// (a) traffic flows both ways once a handshake has completed on both ends
 			probed := false
-			if c31Mirrored(a, b) {
+			if c31Mirrored(a, b) && !idle {
 				probed = true
 				gotAB, gotBA := false, false
 				for try := 0; try < 20 && !(gotAB && gotBA); try++ {
@@ -239,24 +251,40 @@ func TestC31_Converge(t *testing.T) {
 			}
 
 			// fair phase: steady bidirectional traffic, lossless and in order
-			for i := 0; i < 40; i++ {
+			for i := 0; i < 40 && !idle; i++ {
 				w.sendTagged(0, 1, addrB, 48)
 				w.sendTagged(1, 0, addrA, 48)
 				h.runFor(500*time.Millisecond, 100*time.Millisecond)
 				check()
 			}
 			// quiet phase
-			for i := 0; i < 16; i++ {
+			quiet := 16
+			if idle {
+				quiet = 40
+			}
+			for i := 0; i < quiet; i++ {
 				h.runFor(time.Second, 250*time.Millisecond)
 				check()
 			}
 			// (c) single mirrored tunnel, if the state is a fixed point (nothing pending)
 			ta, tb := a.allTunnels(), b.allTunnels()
 			if a.pendingCount() == 0 && b.pendingCount() == 0 {
-				if len(ta) != 1 || len(tb) != 1 {
+				if (len(ta) != 1 || len(tb) != 1) && idle && vk.KnownOpen("C31", c31KeyIdle) {
+					// same recorded class: without sustained traffic the two ends settle independently (own
+					// tunnel kept, or a tunnel whose probes were lost dropped on one side only)
+					vk.ReportKnown("C31", c31KeyIdle)
+					vk.Excluded("C31", c31KeyIdle)
+				} else if len(ta) != 1 || len(tb) != 1 {
 					rt.Fatalf("after the fair and quiet phases a holds %d tunnels and b holds %d (expected one each)\n%s", len(ta), len(tb), strings.Join(h.steps, "\n"))
 				}
-				if ta[0].localIndexId != tb[0].remoteIndexId || ta[0].remoteIndexId != tb[0].localIndexId {
+				if len(ta) != 1 || len(tb) != 1 {
+					// (excluded above)
+				} else if (ta[0].localIndexId != tb[0].remoteIndexId || ta[0].remoteIndexId != tb[0].localIndexId) && idle && vk.KnownOpen("C31", c31KeyIdle) {
+					// recorded finding: the class is defined by the input (tunnels created without payload and no
+					// sustained traffic afterwards); every other assertion of this check still applied to the history
+					vk.ReportKnown("C31", c31KeyIdle)
+					vk.Excluded("C31", c31KeyIdle)
+				} else if ta[0].localIndexId != tb[0].remoteIndexId || ta[0].remoteIndexId != tb[0].localIndexId {
 					rt.Fatalf("final tunnels do not mirror: a %d/%d, b %d/%d\n%s", ta[0].localIndexId, ta[0].remoteIndexId, tb[0].localIndexId, tb[0].remoteIndexId, strings.Join(h.steps, "\n"))
 				}
 			} else {
